@@ -17,7 +17,7 @@ UNPROVED = ["quadratic: 'the point coincides within 1e-6' follows from quad_tOfP
 ASSUMPTIONS = ["math.sqrt real", "the cubic's sample list lies in [0,1] (C16: walk_mem)"]
 LEVEL_TEXT = ("theorems: line_tOfPoint_inverse (regenerated Line.tOfPoint returns exactly t for the point at t, for every real t, unless the line is degenerate in both coordinates), "
               "line_off_carrier (-1 when every carrier point is >= 2e-7 away), quad_tOfPoint_root (a result other than -1 is a root in [0,1] of the x-equation within 2e-7 of a "
-              "root in [0,1] of the y-equation; built on quadraticRoots_mem_iff), matchRoots_complete, quad_constant_coordinate_counterexample (K5), cubic_tOfPoint_range "
+              "root in [0,1] of the y-equation; built on quadraticRoots_mem_iff), matchRoots_complete, quad_constant_coordinate_counterexample (K5), cubic_tOfPoint_range / cubic_tOfPointFull_range (unconditional since F23: the regular samples are merged with a 65-point grid; mem_mergeGrid, grid_dense, bestSample_le) "
               "(the coarse search with the repaired halving loop answers in [0,1] for every non-empty sample list and every distance function)")
 LEVEL_NOTE = "trusted: Lean kernel + Mathlib, axioms {propext, Classical.choice, Quot.sound}, translator, hand models of the quadratic/cubic lookups (correspondence per run)"
 TECHNIQUE = "symbolic tracing to Lean + field algebra; hand model of the matching / halving loops; list induction"
@@ -39,8 +39,10 @@ def model_corr(ctx):
         metas.append(("quad", pts, q))
     for i in range(10 * ctx.scale):
         pts = oc.rand_seg_pts(rng, 4, rng.choice(["int", "grid"]))
+        if i % 3 == 2:
+            pts = [(x / 8.0, y / 8.0) for x, y in pts]        # a cubic only a few units long (F23)
         seg = oc.mkseg(pts)
-        if seg.length < 5:
+        if seg.length < 0.5:
             continue
         t = rng.random()
         base = oc.bern_pt(pts, F(t))
@@ -170,8 +172,13 @@ def search(ctx, budget):
     viol, samples = [], []
     for i in range(n):
         order = 2 + i % 3
-        fam = ["int", "grid", "arch", "elevated", "dyadic", "float", "arch"][(i // 3) % 7]
-        pts = oc.rand_seg_pts(rng, order, fam)
+        fam = ["int", "grid", "arch", "elevated", "dyadic", "float", "arch", "short"][(i // 3) % 8]
+        if fam == "short":
+            # curves 1 .. 15 units long: the arc-length lookup table has only a handful of entries (F23)
+            k = rng.choice([16.0, 8.0, 4.0])
+            pts = [(x / k, y / k) for x, y in oc.rand_seg_pts(rng, order, "int")]
+        else:
+            pts = oc.rand_seg_pts(rng, order, fam)
         if order == 3 and rng.random() < 0.1:
             x = float(rng.randint(-50, 50))
             pts = [(x, pts[0][1]), (x, pts[1][1]), (x, pts[2][1])]     # constant in x (K5 family)
